@@ -99,6 +99,8 @@ def window_case(W, sig, three_d):
             out = mod.estimate_acs_image({"kspace": k.clone(), "acs_mask": acs})
         if list(out.shape) != shape:
             return "err Shape"
+        if not torch.isfinite(out).all():
+            return "err NonFinite"
         row = out.reshape(-1, W, 2)
         if not all(torch.equal(row[i], row[0]) for i in range(row.shape[0])):
             return "err NotAlongWidth"            # the window must vary along the width axis only
@@ -399,7 +401,9 @@ def history_case(spec: dict):
         k = _kdata(spec["seed"] + j, [b, c] + spatial + [2], 0, "plain" if typ == SensitivityMapType.ESPIRIT else feat)
         acs = make_acs(rnd, b, spatial, "full" if typ == SensitivityMapType.ESPIRIT else rnd.choice(["full", "centre", "empty"]), True)
         steps.append((k, acs))
-    steps.append(steps[0])                       # come back to the first sample at the end
+    # the same shapes again with different data (a cache keyed by shape shows), then the first sample again
+    steps += [(_kdata(spec["seed"] + 500 + j, list(k.shape), 0, "plain"), acs) for j, (k, acs) in enumerate(list(steps))]
+    steps.append(steps[0])
     with warnings.catch_warnings():
         warnings.simplefilter("ignore")
         for j, (k, acs) in enumerate(steps):
@@ -432,6 +436,9 @@ def engine_history_case(spec: dict):
         R = _kdata(spec["seed"] + 100 + j, shape, rnd.choice([-30, 0, 30]), rnd.choice(["plain", "zero-coil", "zero-border"]))
         mode = rnd.choice(["none", "2d"]) if not three_d else rnd.choice(["none", "3d", "slice"])
         seq.append((S0, R, mode, three_d))
+    # the same shapes again with different data (a cache keyed by shape shows), then the first sample again
+    seq += [(_kdata(spec["seed"] + 500 + j, list(S0.shape), 0, "plain"), _kdata(spec["seed"] + 700 + j, list(S0.shape), 0, "plain"), mode, td)
+            for j, (S0, R, mode, td) in enumerate(list(seq))]
     seq.append(seq[0])
     outs = []
     try:
